@@ -486,6 +486,7 @@ fn free_running(out: &mut Out, thorough: bool) {
     use std::sync::atomic::{AtomicBool, AtomicUsize, Ordering};
     for round in 0..(if thorough { 8 } else { 3 }) {
         let n = if round % 2 == 0 { 1024usize } else { 256 };
+        *crate::util::CURRENT.lock().unwrap() = Some((format!("free_running galois_plain n={} round={} (eight threads on one Evaluator)", n, round), std::time::Instant::now() + std::time::Duration::from_secs(60)));
         let verdict = std::panic::catch_unwind(|| -> Result<usize, String> {
             let mk = || { let p = EncryptionParameters::new(SchemeType::CKKS).set_poly_modulus_degree(n).set_coeff_modulus(&CoeffModulus::create(n, vec![40, 40, 40])); HeContext::new(p, true, SecurityLevel::None) };
             let ctx_seq = mk(); let ev_seq = Evaluator::new(ctx_seq.clone());
@@ -516,6 +517,7 @@ fn free_running(out: &mut Out, thorough: bool) {
             Ok(Err(m)) => out.raw(&format!("!FAIL free_running galois_plain n={} round={} :: {} # free-running", n, round, m)),
             Err(_) => out.raw(&format!("!FAIL free_running galois_plain n={} round={} :: the run panicked # free-running", n, round)),
         }
+        *crate::util::CURRENT.lock().unwrap() = None;
     }
 }
 
@@ -542,6 +544,9 @@ fn free_running_decryptor(out: &mut Out, thorough: bool) {
     for round in 0..rounds {
         let dec = Decryptor::new(ctx.clone(), kg.secret_key().clone());      // fresh cache every round
         let (big, small) = (10 + round % 3, 2 + round % 4);                   // indices into cts: sizes 12..14 against 4..7
+        // (scoped threads: a thread that deadlocks would block this function for ever — the process watchdog of util.rs turns a round that does
+        // not return into a `!FAIL … non-termination` line and ends the run; found with a seeded self-deadlock under the write lock)
+        *crate::util::CURRENT.lock().unwrap() = Some((format!("free_running decryptor mixed-sizes round={} sizes={},{},{} (three threads on one fresh Decryptor)", round, big + 2, small + 2, small + 3), std::time::Instant::now() + std::time::Duration::from_secs(30)));
         let r = std::thread::scope(|s| {
             let hs: Vec<_> = [big, small, small + 1].into_iter().map(|i| { let (dec, cts, reference) = (&dec, &cts, &reference);
                 s.spawn(move || dec.decrypt_new(&cts[i]).data() == &reference[i]) }).collect();
@@ -549,6 +554,7 @@ fn free_running_decryptor(out: &mut Out, thorough: bool) {
         for x in r { match x { Ok(true) => {}, Ok(false) => bad += 1, Err(_) => panics += 1 } }
         // afterwards, sequentially: every size (in particular the ones between and above the two concurrent requests)
         for i in 0..cts.len() { match std::panic::catch_unwind(std::panic::AssertUnwindSafe(|| dec.decrypt_new(&cts[i]).data() == &reference[i])) { Ok(true) => {}, Ok(false) => bad += 1, Err(_) => panics += 1 } }
+        *crate::util::CURRENT.lock().unwrap() = None;
     }
     if bad == 0 && panics == 0 { out.raw(&format!("!OK free_running decryptor mixed-sizes rounds={} # free-running", rounds)); }
     else { out.raw(&format!("!FAIL free_running decryptor mixed-sizes rounds={} :: {} decryptions differ from the sequential result, {} panicked # free-running", rounds, bad, panics)); }
